@@ -64,7 +64,8 @@ def body(c):
                 for m in (False, True):
                     S.append(dict(stage=st, signal=sg, victims=1, managed=m))
         S += [dict(stage="startup", signal="KILL", victims=1, managed=m, delay=dl) for m in (False, True) for dl in (0.0, 0.002, 0.01)]
-        S += [dict(stage="big_args", signal="KILL", victims=1, managed=False), dict(stage="big_args", signal="exit", victims=1, managed=True)]
+        S += [dict(stage="big_args", signal="KILL", victims=1, managed=False), dict(stage="big_args", signal="exit", victims=1, managed=True),
+              dict(stage="big_args", signal="SEGV", victims=2, managed=False), dict(stage="big_args", signal="TERM", victims=1, managed=True)]
         S += [dict(stage="idle_flag_window", signal="KILL", victims=1, managed=False), dict(stage="idle_flag_window", signal="KILL", victims=1, managed=True),
               dict(stage="task_start", signal="TERM", victims=2, managed=True), dict(stage="idle", signal="KILL", victims=2, managed=True),
               dict(stage="mid_task", signal="SEGV", victims=2, managed=False)]
